@@ -87,6 +87,50 @@ def _tag_of(value):
     return None
 
 
+# handlers whose token is deliberately not built from the constructor fields, one reason each
+HANDLER_FIELDS_OK = {
+    ("dask/highlevelgraph.py", "register_highlevelgraph"): "documented: layer names stand for the graph (dask issue 9888); layers carry tokens in their names",
+    ("dask/dataframe/dask_expr/_util.py", "normalize_data_wrapper"): "returns data._token, the cached token of data._data (the only constructor field)",
+}
+
+
+def handler_covers_fields(ctx):
+    """INJ.handler-fields: a normalize_token handler registered (outside dask/tokenize.py) for a class
+    defined in dask mentions every field that the class stores straight from a constructor parameter --
+    two instances that differ in such a field are different values and need different tokens."""
+    model = ctx.model
+    n = 0
+    for rel in ("dask/layers.py", "dask/highlevelgraph.py", "dask/dataframe/dask_expr/_util.py", "dask/array/ma.py"):
+        if not model.exists(rel):
+            continue
+        mod = model.module(rel)
+        for f, t in _registered(mod):
+            ci = model.resolve_class(mod, ast.parse(t).body[0].value) if t != "?" else None
+            if ci is None:
+                continue  # a third-party type (numpy, pyarrow)
+            if (rel, f.name) in HANDLER_FIELDS_OK:
+                ctx.ob("INJ.handler-fields", f, f"{f.name} ({t}): reviewed exception -- {HANDLER_FIELDS_OK[(rel, f.name)]}", True, nontrivial=False)
+                continue
+            fields = {}
+            for c in ci.mro:
+                init = c.own_methods.get("__init__")
+                if init is None:
+                    continue
+                params = {a.arg for a in init.args.args + init.args.kwonlyargs} - {"self"}
+                for a in walk_no_nested(init):
+                    if isinstance(a, ast.Assign) and len(a.targets) == 1 and isinstance(a.targets[0], ast.Attribute) and isinstance(a.targets[0].value, ast.Name) and a.targets[0].value.id == "self" and isinstance(a.value, ast.Name) and a.value.id in params:
+                        fields[a.targets[0].attr] = c.name
+            if not f.args.args:
+                continue
+            p0 = f.args.args[0].arg
+            used = {x.attr for r in returns(f) for x in ast.walk(r.value) if isinstance(x, ast.Attribute) and isinstance(x.value, ast.Name) and x.value.id == p0}
+            missing = sorted(set(fields) - used)
+            n += 1
+            ctx.ob("INJ.handler-fields", f, f"{f.name} ({t}): the token mentions every constructor field {sorted(fields)}", not missing, "" if not missing else f"not in the token: {missing} -- two {t} values that differ only there get one token; layers/keys built from them collide when they meet in one graph")
+    ctx.count("class_token_handlers", n)
+    ctx.floor("class_token_handlers", 3, "ArraySliceDep, ArrayBlockIdDep, ArrayValuesDep")
+
+
 def check(ctx):
     model = ctx.model
     mod = model.module(TOK)
@@ -348,6 +392,7 @@ def check(ctx):
     tk = mod.func("tokenize")
     ok = bool(find("seen_before, _SEEN = _SEEN, {}", tk)) and any(isinstance(n, ast.Try) and "_SEEN = seen_before" in unparse(n.finalbody) for n in ast.walk(tk))
     ctx.ob("PAIR.seen-scope", tk, "tokenize swaps _SEEN and restores it in finally", ok)
+    handler_covers_fields(ctx)
 
 
 VARIANTS = [
